@@ -433,7 +433,7 @@ def check_C11(ctx):
 
 def check_C12(ctx):
     # InvC04x belongs here too: a thread-local system that is silently not run violates "run ... in registration order"
-    exec_family(ctx, "C12", extra=["--ptl", 0.2, "--modes", "disp,disp,tlonly,seq", "--pnest", 0.06, "--pool1", 0.2], mc=("tl",))
+    exec_family(ctx, "C12", extra=["--ptl", 0.2, "--modes", "disp,disp,tlonly,seq", "--pnest", 0.06, "--pool1", 0.2, "--ppanic", 0.25], mc=("tl",))
     exec_scenarios(ctx, TRACE_INVS["C12"], KF1_PROGS, "thread-local system inside a batch")
     # async dispatcher: thread-local systems only inside wait(), on the caller, every wait
     out = ctx.fresh("as", "ndjson")
@@ -489,7 +489,7 @@ def check_C13(ctx):
 
 
 def check_C14(ctx):
-    exec_family(ctx, "C14", extra=["--ppanic", 0.6, "--modes", "disp,par,seq,disp", "--ptl", 0.15, "--dispatches", 4], mc=("flat", "tl"),
+    exec_family(ctx, "C14", extra=["--ppanic", 0.6, "--modes", "disp,par,seq,disp", "--ptl", 0.15, "--dispatches", 4, "--pbatch", 0.2], mc=("flat", "tl"),
                 mc_thorough=("flat2", "batch", "deps"))
     exec_s2i(ctx, "C14", panics=1, times="{3}" if ctx.quick() else "{1,3}", maxforce=1500 if ctx.quick() else 20000)
 
